@@ -20,6 +20,18 @@ CHECKS = {
          "All arrays and strings (ASCII and 2/3/4-byte scalars) up to length 4 (quick) / 6 (thorough) x all indices and all (start, stop, step) triples in a range exceeding the length on both sides plus MIN/MAX, compared with Python slice semantics on i128; both the constant-folded and the run-time (host API call) routes; static type of the slice must admit the value.",
          "Trusts the harness's re-implementation of slice.indices and that literal sequences evaluate to themselves.",
          "DESIGN.md section 3, C09"),
+ "C10": ("proptest-generated type triples (derived by widening / near-miss perturbation) + exhaustive triples over a 34-type basis, algebraic laws and semantic-witness value soundness as oracles",
+         "Reflexivity, bounds, transitivity, variance congruences as equivalences, struct width, mut invariance, union upper/least bound (unions built with the implementation's `|` in several insertion orders), meet lower bound and value soundness (a concrete witness value of A outside B whenever A matches B) on ~60k generated triples per quick run plus ~14k basis triples.",
+         "Trusts the harness's membership semantics for witnesses (sem.rs); witness search is incomplete, so value soundness is only refuted, never proven.",
+         "DESIGN.md section 3, C10"),
+ "C15": ("proptest-generated types, several instances per type (different source orders, rebuilt with |), print/re-parse round trip + full-consumption parse of the printed text + run-time type-filter route",
+         "Round trip Type -> text -> Type on ~40k generated types x 4-5 instances each (quick): printed text must be exactly one type under the grammar, re-parse to the same structure and be == to the instance; instances must be == to each other; `it ? T` must run for types with a default.",
+         "Print orders of unions/structs come from std's per-instance hash keys; several instances per type sample them, the orders are not enumerated.",
+         "DESIGN.md section 3, C15"),
+ "C20": ("proptest-generated nested values + exhaustive boundary scalars / 1-2 character strings, print -> Variable::from_str / Code::parse round trip; integer literal texts against their mathematical value (reference model)",
+         "Values up to depth 4 over boundary ints, finite floats, adversarial strings, (), arrays and tuples are built through public constructors, rendered and parsed back both as value literal and as program; content, ==, and type must be preserved. Integer literals in four radixes with underscores up to 2^65 must denote their value or be rejected as too big.",
+         "Trusts the harness's JSON model of values and Rust's float formatting being shortest-round-trip.",
+         "DESIGN.md section 3, C20"),
 }
 PENDING = {}
 props = [json.loads(l) for l in open(os.path.join(ROOT, "properties.jsonl"))]
